@@ -136,6 +136,10 @@ pub unsafe fn setuid(uid: libc::uid_t) -> libc::c_int { LAST_SETUID = (LAST_SETU
 pub unsafe fn setgid(gid: libc::gid_t) -> libc::c_int { LAST_SETGID = (LAST_SETGID.0 + 1, gid); if kani::any() { 0 } else { fail() } }
 pub unsafe fn setpgid(pid: libc::pid_t, pgid: libc::pid_t) -> libc::c_int { LAST_SETPGID = (LAST_SETPGID.0 + 1, pid, pgid); if kani::any() { 0 } else { fail() } }
 
+pub static mut CHDIR_CALLS: u32 = 0;
+pub static mut CHDIR_ARG: *const libc::c_char = core::ptr::null();
+pub unsafe fn chdir(dir: *const libc::c_char) -> libc::c_int { CHDIR_CALLS += 1; CHDIR_ARG = dir; if kani::any() { 0 } else { fail() } }
+
 // ------------------------------------------------------------------ signals
 pub static mut MASK_EMPTY: bool = false;
 pub static mut SIGPIPE_DEFAULT: bool = false;
